@@ -22,6 +22,7 @@ import (
 type HEvent struct {
 	Kind string `json:"kind"` // set | poll | refresh | lookup | expire | close | parked-poll | parked-lookup | handle-during-poll | yield
 	Name string `json:"name,omitempty"`
+	Back bool   `json:"back,omitempty"` // set: activate an older version instead of a new one
 }
 
 type HandleCase struct {
@@ -85,15 +86,31 @@ func runC12(t *testing.T, c HandleCase) (*h.Violation, h.Info) {
 	}()
 	var hmu sync.Mutex
 	handles := []namedHandle{{"d1", st.Secret("d1")}, {"d2", st.Secret("d2")}}
-	var acked sync.Map // name -> *atomic.Uint32: version whose installing poll has been acknowledged
+	// installs[name] is the sequence of versions the store installed (or is about to install: the
+	// driver appends before it polls); acked[name] is the index whose installing poll has completed.
+	// Versions may go DOWN (the operator activates an older version), so order is by install, not by number.
+	var imu sync.RWMutex
+	installs := map[string][]uint32{"d1": {1}, "d2": {1}}
+	maxVer := map[string]uint32{}
+	var acked sync.Map // name -> *atomic.Int32
 	for _, n := range all {
-		a := &atomic.Uint32{}
-		a.Store(0)
+		a := &atomic.Int32{}
 		acked.Store(n, a)
+		maxVer[n] = 1
 	}
-	ackOf := func(n string) *atomic.Uint32 { v, _ := acked.Load(n); return v.(*atomic.Uint32) }
-	ackOf("d1").Store(1)
-	ackOf("d2").Store(1)
+	ackOf := func(n string) *atomic.Int32 { v, _ := acked.Load(n); return v.(*atomic.Int32) }
+	// firstInstall records what a freshly obtained handle serves (by reading it once)
+	firstInstall := func(name string, hd setec.Secret) bool {
+		_, ver, ok := parseC12(hd.Get())
+		if !ok {
+			return false
+		}
+		imu.Lock()
+		installs[name] = []uint32{ver}
+		imu.Unlock()
+		ackOf(name).Store(0)
+		return true
+	}
 
 	var bad atomic.Value
 	fail := func(clause, format string, args ...any) {
@@ -103,12 +120,12 @@ func runC12(t *testing.T, c HandleCase) (*h.Violation, h.Info) {
 	var installing atomic.Int32
 	stop := make(chan struct{})
 	var wg sync.WaitGroup
-	readAll := func(last map[string]uint32, count *int) {
+	readAll := func(last map[string]int, count *int) {
 		hmu.Lock()
 		hs := append([]namedHandle{}, handles...)
 		hmu.Unlock()
 		for _, nh := range hs {
-			min := ackOf(nh.name).Load()
+			min := int(ackOf(nh.name).Load())
 			inst := installing.Load() > 0
 			b := nh.h.Get()
 			reads.Add(1)
@@ -128,15 +145,33 @@ func runC12(t *testing.T, c HandleCase) (*h.Violation, h.Info) {
 				fail("complete-really-served-value", "handle of %q returned version %d, never active at the service", nh.name, ver)
 				return
 			}
-			if ver < last[nh.name] {
-				fail("values-follow-install-order", "one reader saw version %d of %q after version %d", ver, nh.name, last[nh.name])
+			imu.RLock()
+			seq := append([]uint32{}, installs[nh.name]...)
+			imu.RUnlock()
+			pos, seen := last[nh.name]
+			if !seen {
+				pos = 0
+			}
+			from := pos
+			if min > from {
+				from = min
+			}
+			found := -1
+			for j := from; j < len(seq); j++ {
+				if seq[j] == ver {
+					found = j
+					break
+				}
+			}
+			if found < 0 {
+				if min > pos {
+					fail("completed-poll-is-visible", "the poll that installed entry %d of %v for %q had completed before this read, which returned version %d (this reader was at entry %d)", min, seq, nh.name, ver, pos)
+				} else {
+					fail("values-follow-install-order", "one reader saw version %d of %q after it had reached entry %d of the install sequence %v", ver, nh.name, pos, seq)
+				}
 				return
 			}
-			if ver < min {
-				fail("completed-poll-is-visible", "a poll that installed version %d of %q had completed before this read, which returned version %d", min, nh.name, ver)
-				return
-			}
-			last[nh.name] = ver
+			last[nh.name] = found
 			*count++
 			if c.Yield > 0 && *count%c.Yield == 0 {
 				runtime.Gosched()
@@ -152,7 +187,7 @@ func runC12(t *testing.T, c HandleCase) (*h.Violation, h.Info) {
 					fail("never-panics", "a handle call panicked: %v", p)
 				}
 			}()
-			last := map[string]uint32{}
+			last := map[string]int{}
 			count := 0
 			for {
 				select {
@@ -177,7 +212,7 @@ func runC12(t *testing.T, c HandleCase) (*h.Violation, h.Info) {
 					fail("never-panics", "a handle call panicked while %s: %v", what, p)
 				}
 			}()
-			last := map[string]uint32{}
+			last := map[string]int{}
 			n := 0
 			for i := 0; i < 3; i++ {
 				readAll(last, &n)
@@ -193,24 +228,49 @@ func runC12(t *testing.T, c HandleCase) (*h.Violation, h.Info) {
 	// drain makes sure no poll flight started earlier (e.g. by a parked poll whose
 	// caller was cancelled) is still running: a Refresh that returns nil was either
 	// a fresh flight or joined one that succeeded.
+	var plan func() map[string]int
+	var commit func(map[string]int)
 	drain := func() bool {
+		pending := plan()
 		for i := 0; i < 200; i++ {
 			if st.Refresh(context.Background()) == nil {
+				commit(pending)
 				return true
 			}
 			time.Sleep(100 * time.Microsecond)
 		}
 		return false
 	}
-	doPoll := func(viaTicker bool) {
-		pending := map[string]uint32{}
+	// plan appends, for every known name whose service version differs from the last installed
+	// one, the version the next successful poll will install; commit acknowledges them.
+	plan = func() map[string]int {
+		pending := map[string]int{}
+		imu.Lock()
 		for n := range known {
-			pending[n] = cur[n]
+			seq := installs[n]
+			if len(seq) > 0 && seq[len(seq)-1] != cur[n] {
+				installs[n] = append(seq, cur[n])
+				pending[n] = len(seq)
+			}
 		}
+		imu.Unlock()
+		return pending
+	}
+	commit = func(pending map[string]int) {
+		for n, idx := range pending {
+			if a := ackOf(n); int(a.Load()) < idx {
+				a.Store(int32(idx))
+			}
+		}
+	}
+	doPoll := func(viaTicker bool) {
+		pending := plan()
 		installing.Add(1)
 		if viaTicker && !closed {
 			tick.Poll()
 		}
+		// names that became known during that poll (a handle taken mid-poll) are polled from the next one on
+		pending2 := plan()
 		// the acknowledged poll is an explicit Refresh started after the change, with
 		// no older flight in progress (see drain), and it must have succeeded
 		err := st.Refresh(context.Background())
@@ -219,11 +279,8 @@ func runC12(t *testing.T, c HandleCase) (*h.Violation, h.Info) {
 			fail("harness", "Refresh failed although the service is healthy: %v", err)
 			return
 		}
-		for n, v := range pending {
-			if a := ackOf(n); a.Load() < v {
-				a.Store(v)
-			}
-		}
+		commit(pending)
+		commit(pending2)
 	}
 	for _, ev := range c.Events {
 		if bad.Load() != nil {
@@ -231,7 +288,18 @@ func runC12(t *testing.T, c HandleCase) (*h.Violation, h.Info) {
 		}
 		switch ev.Kind {
 		case "set":
-			cur[ev.Name]++
+			if ev.Back && maxVer[ev.Name] >= 2 {
+				// the operator activates an older version again
+				v := cur[ev.Name] - 1
+				if v < 1 {
+					v = maxVer[ev.Name]
+				}
+				cur[ev.Name] = v
+				info.Class("activation-backwards")
+			} else {
+				maxVer[ev.Name]++
+				cur[ev.Name] = maxVer[ev.Name]
+			}
 			svc.Set(ev.Name, cur[ev.Name], c12Value(ev.Name, cur[ev.Name]))
 		case "poll":
 			doPoll(true)
@@ -241,17 +309,16 @@ func runC12(t *testing.T, c HandleCase) (*h.Violation, h.Info) {
 			if known[ev.Name] {
 				continue
 			}
-			v := cur[ev.Name]
 			hd, err := st.LookupSecret(context.Background(), ev.Name)
 			if err != nil {
 				fail("harness", "lookup %q: %v", ev.Name, err)
 				break
 			}
-			known[ev.Name] = true
-			if ev.Name == "c1" || ev.Name == "c2" {
-				v = 1 // may be served from the start-up cache without a fetch; only version 1 is certain
+			if !firstInstall(ev.Name, hd) {
+				fail("complete-really-served-value", "a freshly looked-up handle of %q returned %q", ev.Name, hd.Get())
+				break
 			}
-			ackOf(ev.Name).Store(v)
+			known[ev.Name] = true
 			hmu.Lock()
 			handles = append(handles, namedHandle{ev.Name, hd})
 			hmu.Unlock()
@@ -313,9 +380,8 @@ func runC12(t *testing.T, c HandleCase) (*h.Violation, h.Info) {
 				go func() { got <- st.Secret(name) }()
 				select {
 				case hd := <-got:
-					if hd != nil {
+					if hd != nil && firstInstall(name, hd) {
 						known[name] = true
-						ackOf(name).Store(1)
 						hmu.Lock()
 						handles = append(handles, namedHandle{name, hd})
 						hmu.Unlock()
@@ -369,8 +435,19 @@ func runC12(t *testing.T, c HandleCase) (*h.Violation, h.Info) {
 		if v := h.Safely(func() *h.Violation { b = nh.h.Get(); return nil }); v != nil {
 			return h.V("never-panics", "handle of %q panicked at the end: %s", nh.name, v.Detail), info
 		}
-		if _, ver, ok := parseC12(b); !ok || ver < ackOf(nh.name).Load() {
-			return h.V("completed-poll-is-visible", "at the end handle of %q yields %q, acknowledged version %d", nh.name, b, ackOf(nh.name).Load()), info
+		imu.RLock()
+		seq := installs[nh.name]
+		imu.RUnlock()
+		want := seq[ackOf(nh.name).Load()]
+		okTail := false
+		_, ver, ok := parseC12(b)
+		for j := int(ackOf(nh.name).Load()); j < len(seq); j++ {
+			if seq[j] == ver {
+				okTail = true
+			}
+		}
+		if !ok || !okTail {
+			return h.V("completed-poll-is-visible", "at the end handle of %q yields %q; the last acknowledged install is version %d (install sequence %v)", nh.name, b, want, seq), info
 		}
 	}
 	info.NonTrivial = overlapped.Load() > 0
@@ -384,6 +461,7 @@ func genHandleCase(rt *rapid.T) HandleCase {
 	c := HandleCase{Readers: rapid.IntRange(2, 8).Draw(rt, "readers"), Yield: rapid.SampledFrom([]int{0, 1, 3, 17}).Draw(rt, "yield")}
 	c.Events = rapid.SliceOfN(rapid.Custom(func(rt *rapid.T) HEvent {
 		return HEvent{
+			Back: rapid.IntRange(0, 3).Draw(rt, "back") == 0,
 			Kind: rapid.SampledFrom([]string{"set", "set", "set", "poll", "poll", "refresh", "lookup", "expire", "yield", "yield", "parked-poll", "parked-lookup", "handle-during-poll", "close"}).Draw(rt, "kind"),
 			Name: rapid.SampledFrom([]string{"d1", "d1", "d2", "u1", "u2", "u3", "c1", "c2"}).Draw(rt, "name"),
 		}
